@@ -29,7 +29,7 @@ type ExprGen struct {
 
 func stdEnv() *Env {
 	return &Env{NS: []NSBind{{"p", "urn:u1"}, {"q", "urn:u2"}, {"r", "http://example.com/ns"}, {"p2", "urn:u1"}, {"xml", xmlNS},
-		{"child", "urn:u1"}, {"text", "urn:u2"}, {"self", "urn:u1"}}}
+		{"child", "urn:u1"}, {"text", "urn:u2"}, {"self", "urn:u1"}, {"none", ""}}} // "none" is BOUND, to the empty URI: none:x is the no-namespace x
 }
 
 func NewExprGen(r *Rng, d *Doc, env *Env) *ExprGen {
